@@ -1,6 +1,7 @@
-"""C09 -- every submitted job resolves exactly once, with its own outcome."""
-from checks import poolcommon
+"""C09 -- pool keeps its size; workers are recycled on schedule without harm."""
+from checks import poolcommon, workercommon
 
 
 def main(ctx):
     poolcommon.run(ctx, 'C09')
+    workercommon.run(ctx, 'C09')
